@@ -18,7 +18,7 @@ typedef struct {
     unsigned kinds;                      /* bitmask of source kinds (G_SRC) */
     unsigned srcflags;                   /* bitmask of source flag combinations offered: bit f = flags value f (1 AUTOCLOSE, 2 ONESHOT, 4 DUP, 8 AUTOFREE user data) */
     int keylimit;                        /* keys per source kind (0 = the whole menu) */
-    unsigned variants;                   /* 1: one-shot subscriptions; 2: context name/userdata ownership flags; 4: DUP path sources; 8: two tick periods */
+    unsigned variants;                   /* 1: one-shot subscriptions; 2: context name/userdata ownership flags; 4: DUP path sources; 8: two tick periods; 16: the peer of a user descriptor may hang up */
 } profile_t;
 static profile_t P;
 
@@ -126,6 +126,7 @@ static int enabled_ops(op_t *o, int max) {
                 case A_BECOME: for (int h = 1; h <= 2; h++) EMIT(O_ARM, s, cb * 32 + a, h); break;
                 case A_UNBECOME: case A_BCAST: EMIT(O_ARM, s, cb * 32 + a, 0); break;
                 case A_RETAIN: if (cb == CB_EVT) EMIT(O_ARM, s, cb * 32 + a, 0); break;
+                case A_SRCDEREG: if (cb == CB_EVT) { EMIT(O_ARM, s, cb * 32 + a, 0); EMIT(O_ARM, s, cb * 32 + a, 1); } break;
                 case A_ERRNO: for (int k = 0; k < 4; k++) EMIT(O_ARM, s, cb * 32 + a, k); break;
                 case A_CTXCALL: for (int k = 0; k < 6; k++) EMIT(O_ARM, s, cb * 32 + a, k); EMIT(O_ARM, s, cb * 32 + A_QUIT, 1); break;
                 }
@@ -136,7 +137,8 @@ static int enabled_ops(op_t *o, int max) {
     if ((P.groups & G_FAULT) && dev < P.maxdev) { if (!shim_inject_write_eagain) for (int k = 0; k < P.nmods; k++) EMIT(O_INJECT, INJ_WRITE_EAGAIN, k); }
     if ((P.groups & G_CTLFAULT) && dev < P.maxdev && !shim_inject_ctl_del) EMIT(O_INJECT, INJ_CTL_DEL);
     if ((P.groups & G_EPOLLFAULT) && dev < P.maxdev && CX.looping && !shim_inject_epoll_errno) { EMIT(O_INJECT, INJ_EPOLL_EINTR); EMIT(O_INJECT, INJ_EPOLL_EBADF); }
-    if (P.groups & G_READY) for (int k = 0; k < NUFD; k++) if (UFD[k].open_rd && UFD[k].bytes < 2) { int used = 0; for (int t = 0; t < NM; t++) if (find_src(t, K_FD, k) >= 0) used = 1; if (used) EMIT(O_READY, k); }
+    if ((P.groups & G_READY) && (P.variants & 16)) for (int k = 0; k < NUFD; k++) if (UFD[k].open_rd && UFD[k].wr >= 0) { int used = 0; for (int t = 0; t < NM; t++) if (find_src(t, K_FD, k) >= 0) used = 1; if (used) EMIT(O_HANGUP, k); }
+    if (P.groups & G_READY) for (int k = 0; k < NUFD; k++) if (UFD[k].open_rd && UFD[k].bytes < 2 && UFD[k].wr >= 0) { int used = 0; for (int t = 0; t < NM; t++) if (find_src(t, K_FD, k) >= 0) used = 1; if (used) EMIT(O_READY, k); }
     if (P.groups & G_ENVX) {     /* external happenings, offered only when a RUNNING module watches them (an unwatched signal would kill the process) */
         for (int kd = K_SGN; kd <= K_PID; kd++) for (int key = 0; key < 2; key++) { int w = 0, pend = 0;
             for (int t = 0; t < NM; t++) { int i = find_src(t, kd, key); if (i >= 0 && MD[t].st == S_RUNNING) { w = 1; pend += MD[t].src[i].fired; } }
@@ -184,6 +186,7 @@ static void fmt_op(op_t op, char *b, size_t cap) {
     case O_BUCKET: snprintf(b, cap, "set_tokenbucket(%s,rate=%d,burst=%d)", A, TBCFG[op.b % NTBCFG].rate, TBCFG[op.b % NTBCFG].burst); break;
     case O_ARM: snprintf(b, cap, "arm(%s.%s: %s %d)", A, CBN[(op.b >> 5) & 3], AN[(op.b & 31) < A_MAX ? (op.b & 31) : 0], op.d); break;
     case O_READY: snprintf(b, cap, "make_readable(fd%d)", op.a); break;
+    case O_HANGUP: snprintf(b, cap, "peer_closes(fd%d)", op.a); break;
     case O_ADVANCE: snprintf(b, cap, "advance(%luns)", (unsigned long)ADV[op.a & 3]); break;
     case O_INJECT: snprintf(b, cap, "inject(%s)", op.a == 0 ? (op.b == 0 ? "next pipe write -> EAGAIN" : op.b == 1 ? "2nd next pipe write -> EAGAIN" : "3rd next pipe write -> EAGAIN") : op.a == 1 ? "next epoll_wait -> EINTR" : op.a == 2 ? "next epoll_wait -> EBADF" : "next EPOLL_CTL_DEL reported as failed"); break;
     case O_RELEASE: snprintf(b, cap, "release_event(%d)", op.a); break;
@@ -212,7 +215,7 @@ static void canon(char *b, size_t cap) {
         AP("tb%d.%d.%d|", m->tb_rate, m->tb_burst, m->tb_prev);
     }
     AP("T"); for (int i = 0; i < 24; i++) if (MT[i].used) AP("%d.%d.%d.%lu,", MT[i].slot, MT[i].src, MT[i].armed, MT[i].armed ? (unsigned long)(MT[i].next - shim_now_ns) : 0ul);
-    AP("U"); for (int i = 0; i < NUFD; i++) AP("%d.%d,", UFD[i].open_rd, UFD[i].bytes);
+    AP("U"); for (int i = 0; i < NUFD; i++) AP("%d.%d.%d,", UFD[i].open_rd, UFD[i].bytes, UFD[i].hung * 2 + UFD[i].hung_seen);
     AP("cd%d%d ", child_dead[0], child_dead[1]);
     AP("R%d I%d%d%d", nret, shim_inject_write_eagain, shim_inject_epoll_errno, shim_inject_ctl_del);
 }
@@ -227,12 +230,18 @@ static void drain(void) {       /* dispatch until quiescent */
         int inj = shim_inject_epoll_errno;
         do_api((op_t){O_DISPATCH}); audit("probe: dispatch");
         if (last_dispatch_rc <= 0 && !inj) return;      /* nothing was received: quiescent */
+        if (i >= 3) { int hung = 0; for (int t = 0; t < NM; t++) for (int j = 0; j < MAXSRC; j++) if (MD[t].src[j].present && MD[t].src[j].kind == K_FD && UFD[MD[t].src[j].key].hung) hung = 1; if (hung) return; }      /* a hung-up descriptor stays readable for ever */
     }
 }
 static void check_quiescent_obligations(void) {
     if (!CX.exists || !CX.looping) return;
+    /* a readable (or hung-up) descriptor registered by a RUNNING module must have been reported: descriptor events are never held back */
+    for (int s = 0; s < NM; s++) { mod_t *m = &MD[s]; if (!m->present || m->st != S_RUNNING || shim_inject_epoll_errno) continue;
+        for (int j = 0; j < MAXSRC; j++) if (m->src[j].present && m->src[j].kind == K_FD) { int k = m->src[j].key;
+            if (UFD[k].bytes > 0) vfail("EV.lost", "EV.lost|fd", "dispatch no longer delivers anything but descriptor source #%d of RUNNING module %s is readable and was never reported", k, m->name);
+            if (UFD[k].hung && !UFD[k].hung_seen) vfail("EV.lost", "EV.lost|fd-hup", "the peer of descriptor source #%d of RUNNING module %s hung up (readable: end of file) and this was never reported", k, m->name); } }
     for (int s = 0; s < NM; s++) { mod_t *m = &MD[s]; if (!m->present || m->st != S_RUNNING) continue;
-        int haslow = 0; for (int k = 0; k < NPAT; k++) if (m->sub[k].present && m->sub[k].prio == PR_LOW) haslow = 1;
+        int haslow = holds_low(s);
         if (m->batch_size == 0 && m->batch_tmo == 0 && !haslow && !m->ever_batched) {
             if (ON(R_PS)) for (int k = 0; k < m->nmb; k++) if (!m->mb[k].optional && m->mb[k].kind == 0 && MSG[m->mb[k].msg].topic != T_PILL && !owed_excused(s, k))
                 vfail("PS.owed", MSG[m->mb[k].msg].sys ? "PS.owed|quiescent-sys" : "PS.owed|quiescent", "dispatch no longer delivers anything but message #%d (topic %s) owed to RUNNING module %s was never handed over",
